@@ -20,7 +20,7 @@ structure RState where
 
 def initR (hdr : List String) : RState :=
   let cap := (hdr.filterMap (fun h => if h.startsWith "cap=" then (h.drop 4).toNat? else none)).head?.getD 1
-  { c := { cap := cap, sizeCheck := exitChecksSize }, s := State.init }
+  { c := { cap := cap, sizeCheck := exitChecksSize, evBits := 8 * eventsBytes }, s := State.init }
 
 def showPc (p : Pc) : String := reprStr p
 
@@ -43,6 +43,12 @@ def stepObs (r : RState) (o : Obs) : Except String RState :=
     match v.toNat? with
     | none => .error "bad value"
     | some v => if pc = .idle then .ok { r with s := callExecute r.s t v } else .error s!"execute called while the model thread is at {showPc pc}"
+  | some (.ev ["preset_events", v]) =>
+    -- harness mode `wrap`: the counter is overwritten (plain store, nobody else running) to bring an
+    -- overflow of a narrowed counter within reach; the model's memory follows
+    match v.toNat? with
+    | none => .error "bad value"
+    | some v => .ok { r with s := { r.s with events := v % 2 ^ r.c.evBits } }
   | some (.ev ["signal"]) =>
     if pc = .idle then .ok { r with s := callSignal r.s t } else .error s!"signal_push_event called while the model thread is at {showPc pc}"
   | some (.ev ["join_begin"]) =>
